@@ -516,6 +516,7 @@ def tlc_models(ctx, q):
     mc("mem", "AllocaI", "AllocaI_mc.cfg", "alloca shuffle keeps temporaries and blocks (two blocks)", MaxSize=20 if q else 48, MaxBlocks=2, workers=4)
     for v in ("copy_short", "copy_down", "no_bottom_update"):
         mc("mem", "AllocaI", "AllocaI_mc.cfg", "wrong alloca variant %s must be rejected" % v, expect_ok=False, MaxSize=20, Variant='"%s"' % v)
+    mc("mem", "Temps", "Temps_mc.cfg", "one return buffer per type (temporaries of one type coincide) must be rejected", expect_ok=False, Variant='"by_type"')
     for module, cfgbase, consts, what, expect_ok, res in vt.pmap(lambda j: j(), jobs, workers=4):
         if expect_ok and not res.ok:
             p = ctx.replay_dir("tlc-%s" % module)
@@ -557,6 +558,9 @@ def run(ctx):
     import c04_blocks
     c04_blocks.run_blocks(ctx, tree, q)
     ctx.phase("vla/alloca replay")
+    import c04_temps
+    c04_temps.run_temps(ctx, tree, q)
+    ctx.phase("temporaries replay")
     fut.result()
     ex.shutdown()
     ctx.phase("model checking")
@@ -580,6 +584,9 @@ def replay(ctx, path):
     elif c.get("kind") == "blocks":
         import c04_blocks
         c04_blocks.replay_one(ctx, tree, c)
+    elif c.get("kind") == "temps":
+        import c04_temps
+        c04_temps.replay_one(ctx, tree, c)
     elif c.get("kind") == "tlc":
         ctx.tlc_expect_ok("mem", c["module"], ctx.cfg("mem", c["cfg"], **c.get("consts", {})), "replayed model check")
     return ctx.finish(rule="replay of one recorded case")
